@@ -50,6 +50,14 @@ def run_case(cs):
     for s in [""] + dirs:
         for i in range(rng.randint(0, 2)):
             tree[(s + "/" if s else "") + "f" + str(i) + world.gen_name(rng, rng.choice(["plain", "uni", "space"]))] = world.gen_bytes(rng)
+    bulk = None
+    if dirs and (cs.seed_str.endswith(":0") or (cs.tier == "thorough" and rng.random() < 0.001)):
+        # one nested history whose manifest is larger than 1 MiB (thousands of files with long names): the reference the
+        # parent writes is the c4 of the *whole* child manifest
+        bulk = rng.choice([x for x in dirs if not x.startswith("skipdir")] or dirs)
+        for i in range(2400):
+            tree[bulk + "/%04d-%s.ari" % (i, "A001C%03d_230101_R1AB_" % (i % 999) * 11)] = bytes([i % 251])
+        cs.count("nested_history_with_manifest_over_1MiB")
     d = cs.dir()
     root = os.path.join(d, world.root_name(rng))
     world.write_tree(root, tree)
@@ -60,6 +68,8 @@ def run_case(cs):
         # same base name, same parent history, same generation number, same second: the manifest file names are equal
         roots = [r for r in roots if r not in ("CamA", "CamB")]
         roots = list(dict.fromkeys(roots + ["CamA/Clips", "CamB/Clips"]))
+    if bulk is not None and bulk not in roots:
+        roots.append(bulk)
     order = rng.choice(["deep-first", "parent-first", "random"])
     seq = ["."] + roots
     if order == "deep-first":
@@ -88,6 +98,8 @@ def run_case(cs):
             steps.append(f"edit {m['kind']} {m['path']!r}")
     ondisk = world.read_tree(root)
     mode = rng.choice(["folder", "folder", "sf"])
+    if bulk is not None:
+        mode = "folder"  # every history below the root gets a generation and a reference
     formats = world.gen_formats(rng)
     extra = []
     ign = []
